@@ -8,7 +8,9 @@
 \*                 validate (1 = argument must differ from 3), comb ("mux"|"or"), parent (0 = none),
 \*                 mod, pos, sid]
 \* D.structs[s] = [kind "If"|"Switch"|"FSM"|"Body", conds, els, test, pats, dflt, obs, body]
-\* D.sites[s]   = [caller, callee, pos, argk "i"|"c"|"n", argv]
+\* D.sites[s]   = [caller, callee, pos, argk "i"|"c"|"n"|"f", argv]
+\*               argk: "i" argument input argv, "c" constant argv, "n" none, "f" the calling (exclusive) method
+\*               forwards its own argument XOR argv
 \* D.rels[r]    = [a, b, kind "conflict"|"before", prio "U"|"L"|"R", rdep]
 \* D.wits[w]    = [dom "comb"|"sync"|"av"|"top", pos]
 \* a position is a sequence of <<structure id, alternative>> from the module root
@@ -188,12 +190,21 @@ ArgValV(s, v) ==
   CASE D.sites[s].argk = "i" -> v.args[D.sites[s].argv]
     [] D.sites[s].argk = "c" -> D.sites[s].argv
     [] OTHER -> 0
+BitXor2(a, b) == LET x(p, q) == IF p = q THEN 0 ELSE 1
+                 IN x(a % 2, b % 2) + 2 * x(a \div 2, b \div 2)
+\* the value handed over at the k-th site of call chain c: a forwarding site passes on what its caller received
+\* at the previous site of the chain (the first site of a chain belongs to a transaction and never forwards)
+RECURSIVE ChainArg(_, _, _)
+ChainArg(c, k, v) ==
+  IF D.sites[c[k]].argk = "f"
+  THEN IF k = 1 THEN 0 ELSE BitXor2(ChainArg(c, k - 1, v), D.sites[c[k]].argv)
+  ELSE ArgValV(c[k], v)
 Context(v) ==
   LET on == {s \in Sites : Holds(D.sites[s].pos, v)}
       rdy == {b \in Bodies : Ready(b, v)}
       chon(c) == \A i \in 1..Len(c) : c[i] \in on
       valid(t) == \A c \in R.chains[t] :
-                    (D.bodies[EndOf(c)].validate = 1 /\ chon(c)) => ArgValV(c[Len(c)], v) # 3
+                    (D.bodies[EndOf(c)].validate = 1 /\ chon(c)) => ChainArg(c, Len(c), v) # 3
   IN [v |-> v, on |-> on, rdy |-> rdy,
       reach |-> [t \in Trans |-> {EndOf(c) : c \in {x \in R.chains[t] : chon(x)}}],
       stat |-> {t \in Trans : ({t} \cup R.tree[t]) \subseteq rdy /\ valid(t)}]
@@ -243,11 +254,14 @@ RECURSIVE OrAll(_)
 BitOr2(a, b) == LET o(x, y) == IF x + y > 0 THEN 1 ELSE 0
                 IN o(a % 2, b % 2) + 2 * o(a \div 2, b \div 2)
 OrAll(S) == IF S = {} THEN 0 ELSE LET x == CHOOSE y \in S : TRUE IN BitOr2(x, OrAll(S \ {x}))
+\* the argument an active site hands over, judged on the observation: a forwarding site passes on the observed
+\* data_in of its (running) caller
+ArgValO(O, s) == IF D.sites[s].argk = "f" THEN BitXor2(O.din[D.sites[s].caller], D.sites[s].argv) ELSE ArgVal(s)
 ArgRouting(O) ==
   \A m \in Meths : (D.bodies[m].hasarg /\ O.runB[m]) =>
      IF D.bodies[m].nonexcl
-     THEN O.din[m] = OrAll({ArgVal(s) : s \in ActiveTo(O, m)})
-     ELSE \E s \in ActiveTo(O, m) : O.din[m] = ArgVal(s)
+     THEN O.din[m] = OrAll({ArgValO(O, s) : s \in ActiveTo(O, m)})
+     ELSE \E s \in ActiveTo(O, m) : O.din[m] = ArgValO(O, s)
 ResultRouting(O) == \A s \in Sites : O.sres[s] = X.v.mouts[D.sites[s].callee]
 \* C07 (eager scheduler)
 NoWastedCycle(O) ==
